@@ -551,7 +551,7 @@ def run_generated(run: Run, cases, mass_lines, symbols, lam0, mods):
                 for z, a in atoms:
                     for name, e, g in oracle_atom(exp, tbl, z, a, symbols[z]):
                         if name == "has_sld-without-row":
-                            continue                   # D19: recorded for the embedded table only
+                            continue                   # D21: recorded for the embedded table only
                         run.violation("%s of %s%s is not the table's (generated tables)"
                                       % (name, symbols[z], "[%d]" % a if a else ""),
                                       dict(inp, z=z, a=a, observable=name, expected=e, got=g),
